@@ -30,13 +30,14 @@ INJECT = [
 # test -> (crate, properties it stands in for, functions)
 TESTS = {
     "standin_ps_signature_verify": ("zkchannels-crypto", ["C07", "C08", "C03", "C18"], ["ps.Signature::verify", "ps.Signature::new"]),
-    "standin_key_decode_validation": ("zkchannels-crypto", ["C15"], ["ps.PublicKey::try_from", "ps.SecretKey::try_from"]),
+    "standin_key_decode_validation": ("zkchannels-crypto", ["C15", "C07", "C08"], ["ps.PublicKey::try_from", "ps.SecretKey::try_from"]),
     "standin_range_params_generation": ("zkchannels-crypto", ["C19", "C13"], ["range.RangeConstraintParameters::new", "ps.Signature::new"]),
     "standin_keygen": ("zkchannels-crypto", ["C19", "C07", "C08", "C01"], ["ps.KeyPair::new", "ps.SecretKey::new", "ps.PublicKey::from_secret_key"]),
     "standin_ps_publickey_consume": ("zkchannels-crypto", ["C12", "C01", "C02", "C06"], ["ps.PublicKey::consume"]),
     "standin_pedersen_commitment": ("zkchannels-crypto", ["C09", "C10", "C11", "C05"], ["pedersen.Commitment::new", "pedersen.Commitment::verify_opening"]),
-    "standin_pedersen_params_challenge": ("zkchannels-crypto", ["C12", "C06"], ["pedersen.PedersenParameters::consume"]),
+    "standin_pedersen_params_challenge": ("zkchannels-crypto", ["C12", "C06", "C05", "C09", "C19"], ["pedersen.PedersenParameters::consume"]),
     "standin_cproof_verify": ("zkchannels-crypto", ["C11", "C10", "C01", "C02", "C08"], ["cproof.CommitmentProof::verify_knowledge_of_opening", "cproof.CommitmentProofBuilder::*"]),
+    "standin_cproof_public_addition": ("zkchannels-crypto", ["C10", "C11"], ["cproof.CommitmentProofBuilder::generate_proof_response", "cproof.CommitmentProof::verify_knowledge_of_opening"]),
     "standin_cproof_patterns": ("zkchannels-crypto", ["C10", "C11", "C09"], ["cproof.CommitmentProof::verify_knowledge_of_opening", "cproof.CommitmentProofBuilder::*", "pedersen.Commitment::new"]),
     "standin_sproof_verify": ("zkchannels-crypto", ["C11", "C10", "C02", "C13", "C12"], ["sproof.SignatureProof::verify_knowledge_of_signature", "sproof.SignatureProof::consume"]),
     "standin_range_validate": ("zkchannels-crypto", ["C13", "C19"], ["range.RangeConstraintParameters::validate"]),
@@ -63,7 +64,7 @@ TESTS = {
 
 
 # stand-ins that run in every tier: they carry a recorded finding that no deductive obligation expresses
-ALWAYS = {"C06": ["standin_channel_id_collision_mod_q", "standin_channel_id_scalar", "standin_establish_tuple", "standin_pay_tuple", "standin_context_digest"], "C14": ["standin_no_hidden_slot_exposed"], "C19": ["standin_range_params_generation"], "C13": ["standin_range_params_generation"]}
+ALWAYS = {"C06": ["standin_channel_id_collision_mod_q", "standin_channel_id_scalar", "standin_establish_tuple", "standin_pay_tuple", "standin_context_digest"], "C14": ["standin_no_hidden_slot_exposed"], "C19": ["standin_range_params_generation", "standin_pedersen_params_challenge"], "C05": ["standin_pedersen_params_challenge"], "C01": ["standin_channel_id_scalar"], "C18": ["standin_channel_id_scalar"], "C13": ["standin_range_params_generation"]}
 
 
 def tests_for(pid):
